@@ -209,6 +209,56 @@ def run(ctx, rep) -> None:
                   f"inherited keys recorded under `{rec_key}` and skipped by the overlay" if rec_key and written else
                   "_plan_stage stores the merged ancestor values INTO stage.context; a re-armed stage keeps that context, so at its next planning (next loop iteration) the old inherited values are overlaid as 'own' values and shadow the "
                   "ancestors' current outputs - nothing records which keys were inherited", ps.file, ov.lineno, disc="inherited-shadow")
+        # the recorded set is complete: an ancestor key k is recorded  iff  it was inherited before OR it is not an own key
+        #   (atoms: I = k in <previously inherited>, O = k in stage.context; I implies O). Decided by truth table on the filter
+        #   of the comprehension that produces the recorded list.
+        if rec_key is not None and written:
+            inh_vars = set()
+            for s_ in body:
+                if isinstance(s_, ast.Assign) and any(norm(c.func) == "stage.context.get" and c.args and isinstance(c.args[0], ast.Constant) and c.args[0].value == rec_key for c in _calls(s_.value, "get")):
+                    inh_vars.add(norm(s_.targets[0]))
+            rec_assign = [s_ for s_ in ast.walk(fn) if isinstance(s_, ast.Assign) and norm(s_.targets[0]).replace("'", '"') == f'merged["{rec_key}"]']
+            src = rec_assign[0].value
+            while isinstance(src, ast.Call) and norm(src.func) in ("sorted", "list", "set") and src.args:
+                src = src.args[0]
+            if isinstance(src, ast.Name):
+                d_ = [s_ for s_ in body if isinstance(s_, ast.Assign) and norm(s_.targets[0]) == src.id]
+                src = d_[-1].value if d_ else src
+            verdict = None
+            if isinstance(src, (ast.ListComp, ast.SetComp, ast.GeneratorExp)) and len(src.generators) == 1 and norm(src.generators[0].iter) in ("ancestor_outputs", "merged", "ancestor_outputs.keys()"):
+                g = src.generators[0]
+                k = norm(g.target)
+                flt = g.ifs[0] if len(g.ifs) == 1 else (ast.BoolOp(op=ast.And(), values=list(g.ifs)) if g.ifs else None)
+
+                def ev(e, I, O):
+                    if e is None:
+                        return True
+                    if isinstance(e, ast.BoolOp):
+                        vals = [ev(v, I, O) for v in e.values]
+                        if any(v is None for v in vals):
+                            return None
+                        return all(vals) if isinstance(e.op, ast.And) else any(vals)
+                    if isinstance(e, ast.UnaryOp) and isinstance(e.op, ast.Not):
+                        r = ev(e.operand, I, O)
+                        return None if r is None else not r
+                    if isinstance(e, ast.Compare) and len(e.ops) == 1 and norm(e.left) == k:
+                        c = norm(e.comparators[0])
+                        neg = isinstance(e.ops[0], ast.NotIn)
+                        if isinstance(e.ops[0], (ast.In, ast.NotIn)):
+                            if c in inh_vars:
+                                return (not I) if neg else I
+                            if c in ("stage.context", "stage.context.keys()"):
+                                return (not O) if neg else O
+                    return None
+                rows = {(True, True): True, (False, True): False, (False, False): True}
+                got = {io: ev(flt, *io) for io in rows}
+                verdict = None if any(v is None for v in got.values()) else (got == rows)
+                detail = f"filter `{norm(flt) if flt is not None else 'none'}` gives {got} for (inherited before, own key)"
+            else:
+                detail = f"recorded list `{norm(rec_assign[0].value)[:80]}` is not a filtered comprehension over the ancestor keys"
+            rep.check(verdict is True, "C16.R4", "every key inherited from the ancestors is recorded again at each planning", detail if verdict is True else
+                      detail + ": a key inherited at an earlier planning must stay recorded (it is in stage.context by now), otherwise from the third planning on it is overlaid as an own value and the stage keeps seeing an old iteration's value",
+                      ps.file, rec_assign[0].lineno, disc="inherited-recorded")
     rs = prog.func("stabilize.handlers.jump_to_stage.reset", "reset_stage_for_retry").node
     rep.check(any(isinstance(s, ast.Assign) and norm(s.targets[0]) == "stage.outputs" and norm(s.value) in ("{}", "dict()") for s in rs.body), "C16.R4", "re-arm clears the stage's published outputs", "stage.outputs = {}", "src/stabilize/handlers/jump_to_stage/reset.py", rs.lineno, disc="reset-outputs")
 
